@@ -73,7 +73,13 @@ def build_model_driver():
 # ----------------------------------------------------------------------------- running the library
 def case_line(c, order):
     sets = []
-    for s in c["sets"]:
+    for k, s in enumerate(c["sets"]):
+        pre = (c.get("prefix") or [""] * len(c["sets"]))[k]
+        if pre:
+            body = "-" if not s else (",".join("%s:%s" % order[i] if i < len(order) else str(i) for i in s) if (c.get("by_name") and order)
+                                      else ",".join(str(i) for i in s))
+            sets.append(pre + body)
+            continue
         if not s:
             sets.append("-")
         elif c.get("by_name") and order:
@@ -376,6 +382,15 @@ def gen_cases(tier, rng, n, groups):
         b = [rng.below(n), rng.below(n)]
         seqs = [[a, []], [[], a], [a, b], [a, [], b, []]][j % 4]
         add(i, f, "cb", seqs, "reinit")
+    # re-initialisation of a manager that still carries an error: right after a failed self test (^: nothing in
+    # between) and right after a rejected job (!); every init function x flags, with and without a new corruption
+    for ci, (i, f) in enumerate(COMBOS):
+        a = [rng.below(n)]
+        b = [rng.below(n)]
+        add(i, f, "cb", [a, [], b], "reinit-pending-error")
+        cases[-1]["prefix"] = ["", "^", "^"]
+        add(i, f, "cb", [[], [], b, []], "reinit-pending-error")
+        cases[-1]["prefix"] = ["", "!", "!", "^!"]
     return cases
 
 
